@@ -115,6 +115,7 @@ class Symex:
         self.facts = facts
         self.concrete_iters = concrete_iters
         self.assume_reflexive = False
+        self.fold_ground_eq = False      # structural == on fully concrete aggregates (only sound where no lazily evaluated closure can still mutate them)
         self.models = dict(DEFAULT_MODELS)
         if models:
             self.models.update(models)
@@ -830,6 +831,10 @@ def m_cmp(op, flip=False, neg=False):
                 x, y = d[a[2]], d[b[2]]
                 r = {"lt": x < y, "le": x <= y, "eq": x == y}[op]
                 return _ret(st, ("const", (not r) if neg else r))
+        if ex.fold_ground_eq and op == "eq" and ground(a) and ground(b) and (a[0] == "adt" or b[0] == "adt"):
+            # derived / core PartialEq on fully concrete enum / struct values (e.g. Option<CoordPos>): structural equality
+            r = a == b
+            return _ret(st, ("const", (not r) if neg else r))
         if not scalar_like(a) or not scalar_like(b):
             return NotImplemented
         if ex.assume_reflexive and a == b:
@@ -862,7 +867,23 @@ def m_from(ex, st, call, args):
     g = call.gargs
     if len(g) == 2 and g[0] == g[1] and call.callee == "core::convert::From::from":
         return _ret(st, args[0])
+    a = ex.canon(st, args[0])
+    if a[0] == "const" and isinstance(a[1], bool) and re.search(r"From<bool> for (u|i)(size|8|16|32|64|128)>", call.path or ""):
+        return _ret(st, ("const", 1 if a[1] else 0))
     return NotImplemented
+
+
+def ground(t, depth=0):
+    """a term without symbolic leaves: constants and aggregates of them"""
+    if depth > 6 or not isinstance(t, tuple) or not t:
+        return False
+    if t[0] == "const":
+        return True
+    if t[0] == "adt":
+        return all(ground(x, depth + 1) for x in t[3])
+    if t[0] in ("tuple", "array"):
+        return all(ground(x, depth + 1) for x in t[1])
+    return False
 
 
 def m_into(ex, st, call, args):
